@@ -11,6 +11,22 @@ PP_BODY = ("        for bucket in buckets:\n"
            "            if time.time() >= start_slice + self.cpu_slice:\n"
            "                raise TimeSliceExceeded()\n")
 
+NUMBER = ("            if state[\"last-cycle-finished\"] is None:\n"
+          "                state[\"current-cycle\"] = 0\n"
+          "            else:\n"
+          "                state[\"current-cycle\"] = state[\"last-cycle-finished\"] + 1\n")
+
+LOAD_IDX = ("        if lcp == None:\n"
+            "            self.last_complete_prefix_index = -1\n"
+            "        else:\n"
+            "            self.last_complete_prefix_index = self.prefixes.index(lcp)\n")
+
+SAVE_IDX = ("        if lcpi == -1:\n"
+            "            last_complete_prefix = None\n"
+            "        else:\n"
+            "            last_complete_prefix = self.prefixes[lcpi]\n"
+            "        self.state[\"last-complete-prefix\"] = last_complete_prefix\n")
+
 SAVE = ("        tmpfile = self._path.siblingExtension(\".tmp\")\n"
         "        _dump_json_to_file(data, tmpfile)\n"
         "        fileutil.move_into_place(tmpfile.path, self._path.path)\n")
@@ -140,6 +156,55 @@ MUTANTS = [
       "C27.5"),
     M("current-cycle-not-cleared", F,
       "        state[\"current-cycle\"] = None\n        self.finished_cycle(cycle)\n", "        self.finished_cycle(cycle)\n", "C27.5"),
+    # ---- C27.5 the numbering decision in any shape (statement if/else == conditional expression == temporary)
+    M("cycle-number-truthiness-ifexp", F, NUMBER,
+      "            last_finished = state[\"last-cycle-finished\"]\n"
+      "            state[\"current-cycle\"] = last_finished + 1 if last_finished else 0\n", "C27.5",
+      note="seeded C27-B: 'is None' became a truthiness test, last-cycle-finished == 0 restarts the numbering at 0"),
+    M("cycle-number-truthiness-statement", F,
+      "            if state[\"last-cycle-finished\"] is None:\n                state[\"current-cycle\"] = 0\n",
+      "            if not state[\"last-cycle-finished\"]:\n                state[\"current-cycle\"] = 0\n", "C27.5"),
+    M("cycle-number-or-zero", F, NUMBER,
+      "            state[\"current-cycle\"] = (state[\"last-cycle-finished\"] or -1) + 1\n", "C27.5",
+      note="same effect without any test: 'x or -1' treats a finished cycle 0 like no cycle"),
+    M("cycle-number-truthiness-temporary", F, NUMBER,
+      "            lcf = state[\"last-cycle-finished\"]\n"
+      "            if lcf:\n                nxt = lcf + 1\n            else:\n                nxt = 0\n"
+      "            state[\"current-cycle\"] = nxt\n", "C27.5"),
+    M("cycle-number-ifexp-swapped", F, NUMBER,
+      "            lcf = state[\"last-cycle-finished\"]\n"
+      "            state[\"current-cycle\"] = 0 if lcf is not None else lcf + 1\n", "C27.5"),
+    M("cycle-number-only-first-branch", F, NUMBER, "            state[\"current-cycle\"] = 0\n", "C27.5"),
+    M("cycle-in-progress-truthiness", F,
+      "        if state[\"current-cycle\"] is None:\n            self.last_cycle_started_time = time.time()",
+      "        if not state[\"current-cycle\"]:\n            self.last_cycle_started_time = time.time()", "C27.5",
+      note="sibling site of the same slip: cycle 0 in progress is falsy, every resumed slice of cycle 0 starts it anew"),
+    M("benign-cycle-number-ifexp", F, NUMBER,
+      "            last_finished = state[\"last-cycle-finished\"]\n"
+      "            state[\"current-cycle\"] = 0 if last_finished is None else last_finished + 1\n", None),
+    M("benign-cycle-number-ifexp-negated", F, NUMBER,
+      "            state[\"current-cycle\"] = (state[\"last-cycle-finished\"] + 1\n"
+      "                                      if state[\"last-cycle-finished\"] is not None else 0)\n", None),
+    M("benign-cycle-number-temporary", F, NUMBER,
+      "            lcf = state[\"last-cycle-finished\"]\n"
+      "            if lcf is None:\n                nxt = 0\n            else:\n                nxt = lcf + 1\n"
+      "            state[\"current-cycle\"] = nxt\n", None),
+    M("benign-cycle-number-ifexp-in-temporary", F, NUMBER,
+      "            lcf = state[\"last-cycle-finished\"]\n"
+      "            prev = -1 if lcf is None else lcf\n"
+      "            state[\"current-cycle\"] = prev + 1\n", None),
+    # ---- C27.2 the sibling index <-> name decisions in conditional-expression shape
+    M("benign-load-index-ifexp", F, LOAD_IDX,
+      "        self.last_complete_prefix_index = -1 if lcp is None else self.prefixes.index(lcp)\n", None),
+    M("load-index-ifexp-swapped", F, LOAD_IDX,
+      "        self.last_complete_prefix_index = self.prefixes.index(lcp) if lcp is None else -1\n", "C27.2"),
+    M("benign-save-prefix-ifexp", F, SAVE_IDX,
+      "        self.state[\"last-complete-prefix\"] = self.prefixes[lcpi] if lcpi != -1 else None\n", None),
+    M("benign-save-prefix-ifexp-nonnegative", F, SAVE_IDX,
+      "        self.state[\"last-complete-prefix\"] = self.prefixes[lcpi] if lcpi >= 0 else None\n", None),
+    M("save-prefix-ifexp-wrong-test", F, SAVE_IDX,
+      "        self.state[\"last-complete-prefix\"] = self.prefixes[lcpi] if lcpi > 0 else None\n", "C27.2",
+      note="prefix index 0 is saved as 'no prefix completed'"),
     # ---- benign
     M("benign-rename-bucket", F, PP_BODY, PP_BODY.replace("bucket in buckets", "b in buckets").replace(
         "bucket <=", "b <=").replace("prefixdir, bucket)", "prefixdir, b)").replace("] = bucket\n", "] = b\n"), None),
